@@ -256,9 +256,8 @@ func runC09(c c09Case) *vlib.Outcome {
 				if _, cond := w.locs[ln].ProcessEvent(ectx, core.Map{"go": "1"}); cond == nil {
 					o.Fail("LOOP_NOT_REPORTED", "%s: event dispatch in a location whose parent chain loops returned no error", lwhen)
 				}
-				if _, err := w.locs[ln].ListRules(newCtx(), true); err != nil {
-					// ListRules swallows the error; either is fine
-					_ = err
+				if _, err := w.locs[ln].ListRules(newCtx(), true); err == nil {
+					o.Fail("LOOP_NOT_REPORTED", "%s: the inherited rule list of a location whose parent chain loops returned no error", lwhen)
 				}
 			}
 			// An embedded rule evaluated at ln with a context that was last
